@@ -254,3 +254,11 @@ def prelude(suite, pk, hashed_msg, dst, sig=None):
             pass
     if sig is not None and len(sig) == 96:
         call(G.signature_to_G2, bytes([sig[0] ^ 0x20]) + sig[1:])
+    # field / curve operations that fail part-way (mixed extension degrees, a coefficient that is not a
+    # number, mixed groups): an error path must leave nothing behind for the calls under test
+    bn = importlib.import_module("py_ecc.optimized_bn128")
+    for M in (opt, bn):
+        x2, one12 = M.G2[0], M.FQ12.one()
+        for f in (lambda: x2 * one12, lambda: one12 * x2, lambda: x2 * M.FQ2([M.FQ(3), None]), lambda: M.add(M.G1, M.G2),
+                  lambda: M.multiply(M.G2[:2] + (one12,), 3), lambda: x2 / one12, lambda: one12 ** None):
+            call(f)
